@@ -795,6 +795,8 @@ pub fn families(thorough: bool) -> Vec<Family> {
         v.push(fam("cyc-loops", loops_alpha.clone(), 3, 5, 0, f_loops, true));
         v.push(fam("loop-refs", vec![Src, Sink, Map, Tee2, Batch0, AllIter, HoffSing0, HoffSing1], 5, 6, 1, f_loop_refs, false));
         v.push(multi(7));
+        // users of one handoff off the handoff's own chain (two access groups can be acyclic)
+        v.push(fam("refs5", vec![Src, Sink, Map, Tee2, HoffSing0, HoffVec1], 5, 5, 2, f_refs_big, false));
     } else {
         v.push(fam("cyc-shapes", [base.clone(), vec![DeferTick]].concat(), 1, 5, 0, f_shapes5, true));
         v.push(fam("cyc-classes", with_multi.clone(), 1, 4, 0, f_two_special, true));
